@@ -53,6 +53,7 @@ pub fn run_line(line: &str, out: &mut String) {
     let mut notended = 0usize; // owners gone but the stream did not end
     let mut early = 0usize; // ended under a live owner
     let mut stale = 0usize; // did not end on the final value
+    let mut order = 0usize; // a subscriber saw values out of order / twice, or two conditional writers both stored
     for _ in 0..rounds {
         let ob = SharedObservable::new(val(0));
         let mut sub = ob.subscribe();
@@ -121,6 +122,76 @@ pub fn run_line(line: &str, out: &mut String) {
                     Poll::Ready(None) => stale += 1,
                 }
             }
+            "pollstream" => {
+                // C04: a writer storing 1..=N back to back while the subscriber polls: every value the
+                // subscriber is handed must be newer than the one before (value and version are taken
+                // together), and after the writer has finished it ends on the final value, then Pending
+                const N: u32 = 300;
+                let b2 = barrier.clone();
+                let ob2 = ob.clone();
+                let h = std::thread::spawn(move || {
+                    b2.wait(d2);
+                    for k in 1..=N {
+                        ob2.set(val(k * 10));
+                    }
+                });
+                barrier.wait(d1);
+                let mut last = 0u32;
+                let mut bad = false;
+                let mut cx = Context::from_waker(&waker);
+                while !h.is_finished() {
+                    if let Poll::Ready(Some(v)) = Pin::new(&mut sub).poll_next(&mut cx) {
+                        let v = crate::m_obs::show(v);
+                        if v <= last {
+                            bad = true;
+                        }
+                        last = v;
+                    }
+                }
+                h.join().unwrap();
+                match Pin::new(&mut sub).poll_next(&mut cx) {
+                    Poll::Ready(Some(v)) => {
+                        let v = crate::m_obs::show(v);
+                        if v <= last {
+                            bad = true;
+                        }
+                        last = v;
+                        if !Pin::new(&mut sub).poll_next(&mut cx).is_pending() {
+                            bad = true;
+                        }
+                    }
+                    Poll::Pending => {}
+                    Poll::Ready(None) => bad = true,
+                }
+                if last != N * 10 {
+                    stale += 1;
+                }
+                if bad {
+                    order += 1;
+                }
+            }
+            "setifeq" => {
+                // C04: two conditional writers with EQUAL values: compare and store are one atomic step, so
+                // exactly one of them stores (returns Some) and the version moves once
+                let b2 = barrier.clone();
+                let ob2 = ob.clone();
+                let h = std::thread::spawn(move || {
+                    b2.wait(d2);
+                    ob2.set_if_not_eq(val(51)).is_some()
+                });
+                barrier.wait(d1);
+                let a = ob.set_if_not_eq(val(52)).is_some();
+                let b = h.join().unwrap();
+                if a == b {
+                    order += 1;
+                }
+                let mut cx = Context::from_waker(&waker);
+                let first = Pin::new(&mut sub).poll_next(&mut cx);
+                let second = Pin::new(&mut sub).poll_next(&mut cx);
+                if !matches!(first, Poll::Ready(Some(_))) || !second.is_pending() {
+                    stale += 1;
+                }
+            }
             "drop2" => {
                 let ob2 = ob.clone();
                 let mut cx = Context::from_waker(&waker);
@@ -165,15 +236,16 @@ pub fn run_line(line: &str, out: &mut String) {
         }
     }
     out.push_str(&format!(
-        "rounds={} ok:racewake={} ok:raceended={} ok:racenotearly={} ok:racefinal={}\n",
+        "rounds={} ok:racewake={} ok:raceended={} ok:racenotearly={} ok:racefinal={} ok:raceorder={}\n",
         rounds,
         b2s(lost == 0),
         b2s(notended == 0),
         b2s(early == 0),
-        b2s(stale == 0)
+        b2s(stale == 0),
+        b2s(order == 0)
     ));
-    if lost + notended + early + stale > 0 {
+    if lost + notended + early + stale + order > 0 {
         out.pop();
-        out.push_str(&format!(" lost={lost} notended={notended} early={early} stale={stale}\n"));
+        out.push_str(&format!(" lost={lost} notended={notended} early={early} stale={stale} order={order}\n"));
     }
 }
